@@ -60,7 +60,10 @@ class Lib(FsMixin):
         m['os.path'] = {}
         m['tempfile'] = {}
         m['time'] = {'time': E('time.time', self.time_time), 'sleep': E('time.sleep', self.time_sleep)}
-        m['warnings'] = {}
+        m['warnings'] = {'catch_warnings': E('warnings.catch_warnings', self.catch_warnings),
+                         'warn': E('warnings.warn', self.warn)}
+        self.env.obj_methods['catch_warnings'] = {'__enter__': lambda it, o, a, k: o.fields['log'],
+                                                  '__exit__': lambda it, o, a, k: False}
         m['itertools'] = {}
         def opf(nm, cmpname):
             return E('operator.' + nm, lambda it, a, k: it.compare(cmpname, a[0], a[1]))
@@ -317,6 +320,20 @@ class Lib(FsMixin):
         al = [StarPack(args)] if isinstance(args, SeqV) else list(args)
         it.call(o.fields['target'], al, dict(o.fields['kwargs']))
         it.st.effect('THREAD_END', thread=o)
+        return None
+
+    def catch_warnings(self, it, a, k):
+        log = []
+        it.st.ghost['warnlog'] = log
+        return Obj('catch_warnings', {'log': log, 'record': k.get('record', False)})
+
+    def warn(self, it, a, k):
+        cat = a[1] if len(a) > 1 else k.get('category')
+        w = Obj('WarningMessage', {'message': a[0], 'category': cat})
+        log = it.st.ghost.get('warnlog')
+        if log is not None:
+            log.append(w)
+        it.st.effect('WARN', message=a[0], category=cat, batch=it.st.ghost.get('batch'))
         return None
 
     def ft_partial(self, it, a, k):
